@@ -390,6 +390,26 @@ func execBadDoc(c *Sx, env *execEnv) (*Sx, []Violation) {
 			rep("diff-partial-report-with-stop", "diff reports changes although a severe error occurred with stop-on-first-error")
 		}
 	}
+	// a DiffAnalyzer is an object a caller may use again: after a call that failed (two admin policies of one priority) the clean
+	// directory compared with itself must give an empty diff and no error - the errors of the first call are not its errors
+	if base.ok {
+		da := diff.NewDiffAnalyzer(dopts...)
+		var e1, e2 error
+		var cd2 diff.ConnectivityDiff
+		fatalDir := caseDir(env, args[0].A+"x")
+		_ = os.MkdirAll(fatalDir, 0o755)
+		_ = os.WriteFile(filepath.Join(fatalDir, "conflict.yaml"), []byte(twoANPsOnePriority), 0o644)
+		if p := guarded("diff-reuse", func() {
+			_, e1 = da.ConnDiffFromDirPaths(fatalDir, clean)
+			cd2, e2 = da.ConnDiffFromDirPaths(clean, clean)
+		}); p != "" {
+			rep("panic", p)
+		} else if e1 != nil && e2 != nil {
+			rep("analyzer-reuse-keeps-earlier-errors", "the clean directory diffed with itself by a DiffAnalyzer whose earlier call failed ("+e1.Error()[:min(80, len(e1.Error()))]+") fails: "+e2.Error()[:min(160, len(e2.Error()))])
+		} else if e1 != nil && cd2 != nil && !cd2.IsEmpty() {
+			rep("analyzer-reuse-keeps-earlier-errors", "the clean directory diffed with itself by a DiffAnalyzer whose earlier call failed is not an empty diff")
+		}
+	}
 	// an unreadable file in each of the two directories (two different files): each side's reading errors are reported
 	if !stop && base.ok {
 		e1, e2 := caseDir(env, args[0].A+"e"), caseDir(env, args[0].A+"f")
@@ -451,3 +471,26 @@ func min(a, b int) int {
 func init() {
 	families["baddoc"] = family{gen: genBadDoc, exec: execBadDoc}
 }
+
+// twoANPsOnePriority: a Pod and two AdminNetworkPolicies sharing a priority - a fatal error of every analysis
+const twoANPsOnePriority = `apiVersion: v1
+kind: Pod
+metadata: {name: p, namespace: default}
+spec: {containers: [{name: c, image: i}]}
+---
+apiVersion: policy.networking.k8s.io/v1alpha1
+kind: AdminNetworkPolicy
+metadata: {name: one}
+spec:
+  priority: 7
+  subject: {namespaces: {}}
+  ingress: [{name: r, action: Allow, from: [{namespaces: {}}]}]
+---
+apiVersion: policy.networking.k8s.io/v1alpha1
+kind: AdminNetworkPolicy
+metadata: {name: two}
+spec:
+  priority: 7
+  subject: {namespaces: {}}
+  ingress: [{name: r, action: Deny, from: [{namespaces: {}}]}]
+`
